@@ -4,8 +4,8 @@
    TimeFixedGFormula.fit_stochastic, stochastic_check_conditional); proofs: Proofs/StochasticProofs.v. *)
 From Coq Require Import QArith Qround List Bool Arith ZArith Permutation.
 From Zepid Require Import Base.QSum Base.QUtil Base.Rows Proofs.RowsProofs Model.Estimators Proofs.EstimatorsProofs
-  Model.Stochastic Proofs.StochasticProofs GenProofs.GenProofs_gfmarg.
-From ZepidGen Require Import Gen_gfmarg_Q.
+  Model.Stochastic Proofs.StochasticProofs GenProofs.GenProofs_gfmarg GenProofs.GenProofs_siptw14.
+From ZepidGen Require Import Gen_gfmarg_Q Gen_siptw_Q.
 Import ListNotations.
 Open Scope Q_scope.
 
@@ -189,6 +189,13 @@ Theorem C14_src_degenerate_replicate : forall t a l,
   == gf_marginal t a l.
 Proof. exact gen_sto_degenerate_w. Qed.
 
+(* ---- StochasticIPTW.fit in the CURRENT source (translated on every run): NaN start, in-order overwrite loop over
+   zip(conditional, p) with eval(c) read on the row, np.where(A==1, p, 1-p) for a marginal plan, denominator, weight *)
+Theorem C14_src_stoch_iptw_numer : forall pl r, src_stoch_numer pl r = stoch_numer pl r.
+Proof. exact gen14_numer. Qed.
+Theorem C14_src_stoch_iptw_weight : forall pl r, src_siptw_weight pl r = siptw_weight pl r.
+Proof. exact gen14_weight. Qed.
+
 Print Assumptions C14_assign_p_perm.
 Print Assumptions C14_assign_is_the_match.
 Print Assumptions C14_assign_exhaustive.
@@ -212,3 +219,5 @@ Print Assumptions C14_stmle_mc_refuted.
 Print Assumptions C14_src_fit_stochastic_marginal.
 Print Assumptions C14_src_fit_stochastic_marginal_unweighted.
 Print Assumptions C14_src_degenerate_replicate.
+Print Assumptions C14_src_stoch_iptw_numer.
+Print Assumptions C14_src_stoch_iptw_weight.
